@@ -185,6 +185,8 @@ impl<'p, 'a> Evaluator<'a, 'p> {
 
     fn run(&mut self) -> EvalResult<()> {
         while let Some(state) = self.state_stack.pop() {
+            #[cfg(feature = "verif-hooks")]
+            self.verif_note_state(&state);
             match state {
                 State::FnInfallible(f) => f(self),
                 State::FnFallible(f) => f(self)?,
@@ -1545,6 +1547,26 @@ impl<'p, 'a> Evaluator<'a, 'p> {
         }
 
         Ok(())
+    }
+
+    #[cfg(feature = "verif-hooks")]
+    fn verif_note_state(&mut self, state: &State<'a, 'p>) {
+        use std::hash::{Hash as _, Hasher as _};
+        let mut hasher = std::collections::hash_map::DefaultHasher::new();
+        std::mem::discriminant(state).hash(&mut hasher);
+        let stacks = [
+            self.state_stack.len(),
+            self.value_stack.len(),
+            self.bool_stack.len(),
+            self.string_stack.len(),
+            self.array_stack.len(),
+            self.object_stack.len(),
+            self.comp_spec_stack.len(),
+            self.cmp_ord_stack.len(),
+            self.byte_array_stack.len(),
+        ];
+        self.program
+            .verif_note_state(hasher.finish() | 1, stacks, self.stack_trace_len);
     }
 
     #[inline]
